@@ -3,5 +3,5 @@ EXTENDS Csv, Json
 X == <<101, 120, 116, 114, 97>>       \* "extra": a column that is not a field of the table type
 Hdrs == {<<FName, FCount, FScore>>, <<FCount, FName, FScore>>, <<FScore, FCount, FName>>,
          <<FScore, X, FCount, FName>>, <<X, FName, FCount, FScore>>, <<FName, FCount, FScore, X>>}
-Emit == PrintT(ToJson([header |-> header, rows |-> rows, sep |-> Sep, text |-> FileText, canon |-> CanonText]))
+Emit == PrintT(ToJson([header |-> header, rows |-> rows, sep |-> Sep, text |-> FileText, canon |-> CanonText, withheader |-> WithHeader]))
 ==============================================================================
